@@ -115,9 +115,19 @@ pub fn gen_value(rng: &mut Rng, depth: usize) -> MValue {
     } else {
         match rng.below(3) {
             0 => MValue::Array((0..rng.below(4)).map(|_| gen_value(rng, depth + 1)).collect()),
-            1 => MValue::Map(
-                (0..rng.below(3)).map(|i| (MValue::Int(i as i128), gen_value(rng, depth + 1))).collect(),
-            ),
+            1 => {
+                // below the typed level a map is opaque to coset: keys may repeat, be of any kind
+                let n = rng.below(4);
+                let dup = rng.chance(1, 4);
+                MValue::Map(
+                    (0..n)
+                        .map(|i| {
+                            let k = if dup { MValue::Int(1) } else if rng.chance(1, 4) { MValue::Text(["a", "b", "a"][i % 3].to_string()) } else { MValue::Int(i as i128) };
+                            (k, gen_value(rng, depth + 1))
+                        })
+                        .collect(),
+                )
+            }
             _ => MValue::Tag(rng.below(300) as u64, Box::new(gen_value(rng, depth + 1))),
         }
     }
